@@ -143,6 +143,12 @@ def _mutate(kind, obj, op):
             la = new_lanelet(obj, op[1] + i)
             if la.lanelet_id not in {x.lanelet_id for x in other.lanelets}:
                 other.add_lanelet(la)
+            if i == 0 and len(op) > 3 and op[3] and obj.lanelets:
+                # the other network also holds a lanelet whose id the receiver already has, after a new one: the call
+                # warns and stops there - the lanelets added before it are in the network AND in its index
+                ex = obj.lanelets[op[1] % len(obj.lanelets)]
+                if ex.lanelet_id not in {x.lanelet_id for x in other.lanelets}:
+                    other.add_lanelet(O.rb_lanelet(ex))
         obj.add_lanelets_from_network(other)
     elif name in ("set_elems", "set_offset", "set_active", "set_cycle"):
         cyc = _cycle_of(kind, obj, op)
@@ -258,6 +264,8 @@ def query(kind, obj, op, ctxobj=None):
         return O.c_val(net.lanelet_polygons)
     if name == "q_ldist":
         lls = net.lanelets
+        if not lls:
+            return []       # nothing to ask in an emptied network
         la = lls[op[1] % len(lls)]
         return [la.lanelet_id, O.c_val(la.distance), O.c_val(la.polygon)]
     if name == "q_light":
@@ -427,7 +435,7 @@ def g_mutator(rng, kind, obj):
     ms = [g_tr(rng), g_tr(rng), g_tr(rng), ["add_lanelet", s], ["remove_lanelet", rng.randint(0, 20), rng.random() < 0.3],
           ["set_offset", rng.randint(0, 9), rng.randint(0, 5)], ["set_elems", s, rng.randint(0, 5)]]
     if kind == "net":
-        ms += [["add_from_net", s, rng.randint(1, 3)]]
+        ms += [["add_from_net", s, rng.randint(1, 3), rng.random() < 0.4]]
     else:
         ms += [["obst_tr"] + g_tr(rng)[1:] + [rng.randint(0, 5)]]
     return rng.choice(ms)
@@ -649,13 +657,17 @@ def _net_op(kind, obj, op, tk):
             lid = new_lanelet(net, op[1] + i).lanelet_id
             if lid not in ids:
                 ids.append(lid)
+            if i == 0 and len(op) > 3 and op[3] and net.lanelets:
+                ex = net.lanelets[op[1] % len(net.lanelets)].lanelet_id
+                if ex not in ids:
+                    ids.append(ex)
         return f"(NAddFrom TokW {qlist([f'({qz(i)}, {tk.new()})' for i in ids])})"
     if name == "tr":
         return f"(NMove TokW {tk.z()})"
     if name in ("q_pos", "q_shape"):
         return f"({'NQPos' if name == 'q_pos' else 'NQShape'} TokW tt)"
     if name == "q_ldist":
-        return f"(NLanelet TokW {op[1] % len(net.lanelets)}%nat (LQDist TokW))"
+        return f"(NLanelet TokW {op[1] % len(net.lanelets)}%nat (LQDist TokW))" if net.lanelets else None
     tls = net.traffic_lights
     if name in ("q_light", "q_init", "set_offset", "set_elems", "set_active"):
         if not tls:
